@@ -96,6 +96,12 @@ def jobs(tier):
     out.append({"acks": 1, "batch": True, "batch_n": 2, "batch_b": 0, "batch_t": 0, "codec": CODEC_NONE, "api": 0,
                 "K": 6 if q else 7, "sends": 3, "faults": 2, "max_attempts": 2, "interval": 0.25,
                 "two_topics": True, "cancel": True, "stop": False, "variants": 1, "errcodes": 1})
+    # the application resubmits from a result handler (the common resend-on-error pattern): the resubmission must queue behind
+    # the batch that is still being wound up, not overtake it
+    for batch in (False, True):
+        out.append({"acks": 1, "batch": batch, "batch_n": 2, "batch_b": 0, "batch_t": 0, "codec": CODEC_NONE, "api": 0,
+                    "K": 6 if q else 7, "sends": 3, "faults": 3, "max_attempts": 2, "interval": 0.25,
+                    "two_topics": False, "cancel": False, "stop": False, "variants": 1, "errcodes": 1, "resend": True})
     # time-triggered batching: ticks of the batch timer interleave with unresolved batches and their retry timers
     for parts in (1, 2):
         out.append(
